@@ -350,7 +350,10 @@ fn handle_xgroup_create(storage: &Arc<StorageEngine>, db: usize, parts: &[RespFr
     
     // Create the consumer group
     match stream.create_consumer_group(group_name, start_id) {
-        Ok(()) => Ok(RespFrame::ok()),
+        Ok(()) => {
+            storage.touch(db, &key)?;
+            Ok(RespFrame::ok())
+        }
         Err(e) if e.contains("already exists") => Ok(RespFrame::error("BUSYGROUP Consumer Group name already exists")),
         Err(e) => Ok(RespFrame::error(format!("ERR {}", e))),
     }
@@ -384,6 +387,9 @@ fn handle_xgroup_destroy(storage: &Arc<StorageEngine>, db: usize, parts: &[RespF
     
     // Destroy the group
     let destroyed = stream.destroy_consumer_group(&group_name);
+    if destroyed {
+        storage.touch(db, key)?;
+    }
     Ok(RespFrame::Integer(if destroyed { 1 } else { 0 }))
 }
 
@@ -429,6 +435,9 @@ fn handle_xgroup_createconsumer(storage: &Arc<StorageEngine>, db: usize, parts: 
     
     // Create the consumer
     let created = group.create_consumer(consumer_name);
+    if created {
+        storage.touch(db, key)?;
+    }
     Ok(RespFrame::Integer(if created { 1 } else { 0 }))
 }
 
@@ -473,7 +482,11 @@ fn handle_xgroup_delconsumer(storage: &Arc<StorageEngine>, db: usize, parts: &[R
     };
     
     // Delete the consumer and return pending count
+    let existed = group.consumers.read().unwrap().contains_key(&consumer_name);
     let pending_removed = group.delete_consumer(&consumer_name);
+    if existed {
+        storage.touch(db, key)?;
+    }
     Ok(RespFrame::Integer(pending_removed as i64))
 }
 
@@ -528,6 +541,7 @@ fn handle_xgroup_setid(storage: &Arc<StorageEngine>, db: usize, parts: &[RespFra
     
     // Set the ID
     group.set_id(new_id);
+    storage.touch(db, key)?;
     Ok(RespFrame::ok())
 }
 
@@ -717,7 +731,13 @@ pub fn handle_xreadgroup(storage: &Arc<StorageEngine>, db: usize, parts: &[RespF
         }
         
         // Read entries for the group
-        match stream.read_group(&group_name, &consumer_name, after_id, count, noack) {
+        let read = stream.read_group(&group_name, &consumer_name, after_id, count, noack);
+        // Reading with ">" delivers: it moves the group's cursor, fills the pending list and may create the
+        // consumer - a change of the key (a history read with an explicit id changes nothing)
+        if read.is_ok() && id_str == ">" {
+            storage.touch(db, key)?;
+        }
+        match read {
             Ok(entries) if !entries.is_empty() => {
                 let mut stream_result = Vec::new();
                 
@@ -804,7 +824,12 @@ pub fn handle_xack(storage: &Arc<StorageEngine>, db: usize, parts: &[RespFrame])
     
     // Acknowledge messages
     match stream.acknowledge_messages(&group_name, &ids) {
-        Ok(count) => Ok(RespFrame::Integer(count as i64)),
+        Ok(count) => {
+            if count > 0 {
+                storage.touch(db, key)?;
+            }
+            Ok(RespFrame::Integer(count as i64))
+        }
         Err(e) if e.contains("NOGROUP") => Ok(RespFrame::Integer(0)),
         Err(e) => Ok(RespFrame::error(e)),
     }
@@ -1036,6 +1061,7 @@ pub fn handle_xclaim(storage: &Arc<StorageEngine>, db: usize, parts: &[RespFrame
     // Claim messages
     match stream.claim_messages(&group_name, &consumer_name, min_idle_ms, &ids, force) {
         Ok(entries) => {
+            storage.touch(db, key)?;
             if justid {
                 // Return just IDs
                 let id_frames: Vec<RespFrame> = entries
@@ -1166,6 +1192,7 @@ pub fn handle_xautoclaim(storage: &Arc<StorageEngine>, db: usize, parts: &[RespF
     // Auto-claim messages
     match stream.auto_claim_messages(&group_name, &consumer_name, min_idle_ms, start_id, count) {
         Ok((entries, next_start)) => {
+            storage.touch(db, key)?;
             let mut response = Vec::new();
             
             // Next start ID
